@@ -43,7 +43,7 @@ pub open spec fn item_ok(o: CompiledItem, src: CompiledItem, pos: int, c: int, b
 
 INV = """invariant
     $K <= $V.len(),
-    $V@.len() == b + 1, final_body_compiled_len == b + 1,
+    $V@.len() == b + 1,
     $V@.subrange(0, b) == body0,
     is_instr($V@[b], JMP_POP), nargs($V@[b]) == 1, argn($V@[b], 0) == -1 - b - c,
     condition_compiled@.len() == c + 1 + $K,
@@ -95,6 +95,7 @@ def build(repo):
         opcode_consts(ids, ["while_loop", "jmp_pop"]) + SPEC + f"""
 impl WhileLoop {{
     //@ OBL C01.while.layout
+    #[verifier::loop_isolation(false)]
     pub fn compile(&self, state: &CompilationState) -> (r: Result<Vec<CompiledItem>, VErr>)
         ensures r is Ok ==> while_wellformed(r->Ok_0@)
     {{
